@@ -13,7 +13,13 @@ pub const PUNCT: [&str; 14] = [",", ".", ";", ":", "!", "?", "(", ")", "\"", "â€
 pub const PUNCT_AFTER: [&str; 8] = [",", ".", ";", ":", "!", "?", ")", "\""];
 pub const PUNCT_BEFORE: [&str; 3] = ["(", "\"", "Â«"];
 /// `char::is_whitespace` strings only
-pub const WS: [&str; 10] = [" ", "  ", "\t", "\n", "\r\n", "\u{a0}", "\u{2009}", "\u{2003}", "\u{3000}", "\u{2028}"];
+pub const WS: [&str; 29] = [
+    " ", "  ", "\t", "\n", "\r\n", "\u{a0}", "\u{2009}", "\u{2003}", "\u{3000}", "\u{2028}",
+    // the rest of the Unicode White_Space set: vertical tab, form feed, lone CR, NEL, ogham space, the other fixed-width
+    // spaces, paragraph separator, narrow no-break space, medium mathematical space
+    "\u{b}", "\u{c}", "\r", "\u{85}", "\u{1680}", "\u{2000}", "\u{2001}", "\u{2002}", "\u{2004}", "\u{2005}", "\u{2006}", "\u{2007}", "\u{2008}", "\u{200a}", "\u{2029}", "\u{202f}", "\u{205f}",
+    " \u{b}", "\u{c}\t",
+];
 
 pub fn raw_fillers(code: &str) -> &'static [&'static str] {
     match code {
